@@ -97,6 +97,8 @@ def analyse_push(P):
                 c = cls.pop()
                 if c == 'EMPTY':
                     want, flag = ([[('push', 'seg')], []] if path_empty else [[('push', 'seg')]]), 0
+                    if path_empty:
+                        stats.setdefault('empty_on_empty', set()).add('skip' if not log else 'push')
                 else:
                     want, flag = WANT[c]
                 if log not in want or rv[2] != flag:
@@ -399,3 +401,113 @@ def analyse_append(P, fn=APPEND, copy=False):
     if stats['tail_paths'] == 0:
         problems.append('no path from the end of the loop to the return')
     return sorted(set(problems)), stats
+
+
+def analyse_copy_rewrite(P):
+    """PathImpl::normalized written as a REWRITE:  copy self, normalise the copy in place (decided by the in-place rules of C09), and end it
+    with an empty segment exactly when the last segment of self is "." or ".." and the normalised copy is not empty (the trailing "/" that
+    RFC 3986 5.2.4 leaves after a final dot segment).  Engine S executes the function with the LAST SEGMENT of self as the text under analysis
+    (all byte strings; `last()` also answers None), the copy and its handle opaque, their operations logged."""
+    b = P.bodies.get(COPY)
+    if b is None:
+        return [f'{COPY} not found'], {}
+    T = ('str', strscan.A0, N('len', 0))
+    SELF = ('opaque', 'self')
+    OWNED = ('opaque', 'copy')
+    H = ('handle',)
+    sp = seg_spec()
+    bodies = {n: bd for n, bd in P.bodies.items() if n.startswith('common::path::')}
+    stats = {'configs': 0, 'returns': 0}
+
+    def with_log(mach, st, what):
+        f0 = st[0][0]
+        l2 = list(f0[3])
+        l2[-1] = tuple(l2[-1] or ()) + (what,)
+        return (((f0[0], f0[1], f0[2], tuple(l2)) + tuple(f0[4:]),) + tuple(st[0][1:]),) + tuple(st[1:])
+
+    def val(locs, a):
+        return locs[a[1]] if isinstance(a, tuple) and a and a[0] == 'ref' and isinstance(a[1], int) else a
+
+    def extra(mach, st, locs, name, args):
+        base = name.rsplit('::', 1)[-1]
+        a0 = val(locs, args[0]) if args else None
+        if a0 == SELF:
+            if base in ('to_path_buf', 'to_owned') and len(args) == 1:
+                return [(OWNED, with_log(mach, st, ('copy',)))]
+            if base == 'last' and len(args) == 1:
+                return [(strscan.NONE, with_log(mach, st, ('last', False))), (strscan.some(T), with_log(mach, st, ('last', True)))]
+            if base in ('is_absolute', 'is_relative', 'is_empty', 'len'):
+                return [(N('abs', 0), st), (N('abs', 1), st)] if base != 'len' else None
+            raise strscan.Unsupported(f'{name} on self (only to_path_buf / last are expected of the copy)')
+        if a0 == OWNED:
+            if base == 'as_path_mut':
+                return [(H, st)]
+            if base in ('deref', 'as_path', 'as_ref', 'borrow'):
+                return [(OWNED, st)]
+            if base == 'is_empty' and len(args) == 1:
+                return [(N('abs', 0), with_log(mach, st, ('result-empty', False))), (N('abs', 1), with_log(mach, st, ('result-empty', True)))]
+            raise strscan.Unsupported(f'{name} on the copy')
+        if a0 == H:
+            if name == PRE + 'normalize' and len(args) == 1:
+                return [(strscan.UNIT, with_log(mach, st, ('normalize',)))]
+            if name == PRE + 'push' and len(args) == 2:
+                x = args[1]
+                what = 'EMPTY' if isinstance(x, tuple) and x and x[0] == 'constref' and x[1].rstrip().endswith('EMPTY') else 'other'
+                return [(strscan.UNIT, with_log(mach, st, ('push', what)))]
+            if base in ('deref',):
+                return [(OWNED, st)]
+            raise strscan.Unsupported(f'{name} on the handle of the copy (only normalize and push are expected)')
+        return None
+
+    def claim(mach, rv, st):
+        log = list(st[0][0][3][-1] or ())
+        ops = [x for x in log if x[0] in ('copy', 'normalize', 'push')]
+        if rv != OWNED:
+            return [('copy', f'the value returned is not the copy of self ({str(rv)[:40]})')]
+        if ops[:2] != [('copy',), ('normalize',)] or ops.count(('normalize',)) != 1 or ops.count(('copy',)) != 1:
+            return [('copy', f'the copy is not made once and normalised in place once before anything else (operations: {ops})')]
+        pushes = ops[2:]
+        d = dict(x for x in log if len(x) == 2 and x[0] in ('last', 'result-empty'))
+        out = []
+        classes = set()
+        if d.get('last') is False:
+            classes = {None}
+        else:
+            for (q, pl) in st[4]:
+                for fut in strscan.completions(mach.spec, q, st[2]):
+                    cls = ({m for m, _ in pl} | {m for m, _ in fut}) & set(MARKERS)
+                    if len(cls) == 1:
+                        classes |= cls
+        for c in classes:
+            dot = c in ('DOT', 'DOTDOT')
+            what = {None: 'a path without segments', 'DOT': 'a path ending in "."', 'DOTDOT': 'a path ending in ".."', 'EMPTY': 'a path ending in an empty segment', 'OTHER': 'a path ending in an ordinary segment'}[c]
+            if 'last' not in d and c is not None:
+                out.append(('copy', 'the last segment of self is not looked at'))
+                continue
+            if dot and d.get('result-empty') is False:
+                if pushes != [('push', 'EMPTY')]:
+                    out.append(('copy', f'for {what} whose normalised copy is not empty the operations after normalize are {pushes or "none"} (one push of the EMPTY segment expected: RFC 3986 5.2.4 leaves a trailing "/")'))
+            elif dot and d.get('result-empty') is None:
+                if pushes:
+                    out.append(('copy', f'for {what} the EMPTY segment is pushed without testing that the normalised copy is not empty'))
+            elif pushes:
+                out.append(('copy', f'for {what}{" (normalised copy empty)" if dot else ""} the operations after normalize are {pushes} (none expected)'))
+        return out[:2]
+
+    m = strscan.Machine(bodies, sp, COPY, [SELF], lambda n: n.startswith('common::path::SegmentImpl::'), claim, extra_summary=extra)
+    problems = []
+    try:
+        raw = m.run()
+    except Exception as e:
+        return [f'analysis aborted ({type(e).__name__}: {e})'], stats
+    stats['configs'] = m.stats['configs']
+    stats['returns'] = m.stats['returns']
+    seen = set()
+    for kind, msg, st, where in raw:
+        if msg in seen:
+            continue
+        seen.add(msg)
+        problems.append(f'[{kind}] {msg}')
+    if m.stats['returns'] == 0 and not raw:
+        problems.append('no path through the copy returns')
+    return problems, stats
